@@ -52,6 +52,9 @@ func runRSo(c *rsCase, cls string, want []byte) string {
 		}
 	}
 	out := unhex(f["out"])
+	if _, ok := f["final"]; !ok {
+		f["final"] = f["x_final"]
+	}
 	switch cls {
 	case "valid":
 		if f["final"] != "eof" || !bytes.Equal(out, want) {
@@ -106,7 +109,7 @@ func randOpts(r *rng, small bool) fopt {
 		o.bs = 4
 	}
 	if r.intn(3) == 0 {
-		o.size = int64(r.intn(100000))
+		o.size = -2 // replaced by the caller (true input length, or a deliberately different value)
 	}
 	if r.intn(8) == 0 {
 		o.leg = 1
@@ -273,9 +276,12 @@ func compWS(o *out, seed uint64, tier string) {
 	bs := 65536
 	// 1. option matrix x inputs x partitions (well-formed sessions)
 	sizes := []int{0, 1, 13, bs - 1, bs, bs + 1, 2 * bs, 3*bs + 7}
-	for i := 0; i < 140*mult; i++ {
+	for i := 0; i < 48*mult; i++ {
 		op := randOpts(r, r.intn(6) != 0)
 		n := sizes[r.intn(len(sizes))]
+		if n > bs+1 && (r.intn(3) != 0 || op.lvl > 2048) && tier != "thorough" {
+			n = sizes[r.intn(6)] // multi-block inputs through the extracted HC model are costly: fewer in the quick tier
+		}
 		if op.bs != 4 {
 			n = []int{0, 5, 70000, (1 << (8 + 2*uint(op.bs))) + 3}[r.intn(4)]
 			if op.bs == 7 && n > 70000 && tier != "thorough" {
@@ -284,6 +290,12 @@ func compWS(o *out, seed uint64, tier string) {
 		}
 		if op.leg == 1 {
 			op.bc = 0 // legacy frames have no block checksums (option combination examined separately)
+		}
+		if op.size == -2 {
+			op.size = int64(n)
+			if r.intn(4) == 0 {
+				op.size = int64(r.intn(100000)) // a configured size that is not the content length
+			}
 		}
 		kind := r.intn(4)
 		sd := r.intn(1000)
@@ -363,12 +375,18 @@ func compWS(o *out, seed uint64, tier string) {
 		emit(&wsCase{ops: ops, wf: false, rdconc: 1}, "lifecycle-random")
 	}
 	// 4. sink failing at its k-th call, every k up to the fault-free call count
-	for i := 0; i < 12*mult; i++ {
+	for i := 0; i < 6*mult; i++ {
 		op := randOpts(r, true)
 		if op.leg == 1 {
 			op.bc = 0
 		}
-		n := []int{0, 100, bs + 5, 2*bs + 9}[r.intn(4)]
+		if op.size == -2 {
+			op.size = 77
+		}
+		if op.lvl > 1024 {
+			op.lvl = 512
+		}
+		n := []int{0, 100, 1000, bs + 5}[r.intn(4)]
 		ops := []string{"A:" + op.String(), fmt.Sprintf("W:g:%d,%d,%d", r.intn(4), r.intn(99), n)}
 		if r.intn(2) == 0 {
 			ops = append(ops, "F", "W:h:0102030405")
@@ -448,6 +466,9 @@ func compRS(o *out, seed uint64, tier string) {
 		op.conc = 1
 		if op.leg == 1 {
 			op.bc = 0
+		}
+		if op.size == -2 {
+			op.size = int64(r.intn(400))
 		}
 		n := []int{0, 1, 5, 40, 100, 300}[r.intn(6)]
 		if i%6 == 5 {
